@@ -15,6 +15,10 @@ fn main() {
         rngs_verif::props::c19::scenario_trace_main();
         return;
     }
+    if args.first().map(|s| s.as_str()) == Some("--deep-ctor") {
+        rngs_verif::props::c14::deep_ctor_main();
+        return;
+    }
     if args.first().map(|s| s.as_str()) == Some("--solo-trace") {
         rngs_verif::props::c19::solo_trace_main();
         return;
